@@ -34,9 +34,12 @@ def one(spec):
         subprocess.run(["git", "clone", "-q", "/repo", f"{w}/r"], check=True)
         if subprocess.run(["git", "-C", f"{w}/r", "apply", f"{d}/patch.diff"]).returncode != 0:
             return f"{spec} recorded={rec} PATCH-DOES-NOT-APPLY"
-        env = dict(os.environ, VERIF_REPO=f"{w}/r", VERIF_FAILDIR=f"{w}/fail", VERIF_SEED=SEED)
-        p = subprocess.run([f"{H}/check", pid, "--no-evidence", "--jobs", JOBS], cwd=H, env=env, capture_output=True, text=True)
-        rc = p.returncode
+        rc, tried = None, []
+        for seed in [SEED] + [x for x in ("2", "3") if x != SEED]:      # a change the search finds only at some seeds: try up to three
+            env = dict(os.environ, VERIF_REPO=f"{w}/r", VERIF_FAILDIR=f"{w}/fail", VERIF_SEED=seed)
+            p = subprocess.run([f"{H}/check", pid, "--no-evidence", "--jobs", JOBS], cwd=H, env=env, capture_output=True, text=True)
+            rc = p.returncode; tried.append(f"{seed}:{rc}")
+            if rc == 1 or rec != 1: break
         best = {}
         for f in glob.glob(f"{w}/fail/{pid}/*.json"):
             try: fd = json.load(open(f))
@@ -60,7 +63,7 @@ def one(spec):
                            "note": f"shrunk case with which the quick tier reported seeded change {pid}/{n} ({(meta.get('summary') or '')[:160]}); passes on the unchanged tree"},
                           open(f"{H}/replays/{pid}/seeded-{n}-{sub}.json", "w"), indent=1)
                 stored.append(sub)
-        return f"{spec} recorded={rec} now={rc} subs={sorted(best)} stored={stored}"
+        return f"{spec} recorded={rec} now={rc} seeds={','.join(tried)} subs={sorted(best)} stored={stored}"
     finally:
         shutil.rmtree(w, ignore_errors=True)
 
